@@ -91,7 +91,7 @@ THEOREM_FUNCS = {
     "encodeHandshakeRequest_eq": ["encodeHandshakeRequest"], "encodeEncryptedRequest_eq": ["encodeEncryptedRequest"],
     "decodeHandshakeResponse_eq": ["decodeHandshakeResponse"], "decodeEncryptedResponse_eq": ["decodeEncryptedResponse"],
     "processPacket_eq": ["processPacket"], "getLocalKey_eq": ["getLocalKey"], "packetEncode_eq": ["packetEncode"],
-    "packetDecode_eq": ["packetDecode"], "reasmStep_eq": ["reasmStep"], "writeV3_eq": ["writeV3"], "nextMessageId_eq": ["nextMessageId"], "responseValidate_eq": ["responseValidate"],
+    "packetDecode_eq": ["packetDecode"], "reasmStep_eq": ["reasmStep"], "writeV3_eq": ["writeV3"], "nextMessageId_eq": ["nextMessageId"], "responseValidate_eq": ["responseValidate"], "constructDispatch_eq": ["constructDispatch"],
 }
 ALL_TRANSLATED = sorted({f for fs in THEOREM_FUNCS.values() for f in fs})
 
